@@ -149,6 +149,45 @@ def scenario(sh: Shard, seed, idx, action, t_crash, shape, regime, suspend):
                         out["landed_at_step"] = True
                     except asyncio.TimeoutError:
                         out["harness_problem"] = "fewer callbacks were scheduled than the requested step index"
+                elif shape == "in-reset-callback":
+                    # the action lands while the library's own reset (a ping answered in an error state,
+                    # made from the connection's ping-loop task) is suspended inside the client's
+                    # RUNNING_SPA_DISCONNECTED handler
+                    fut = loop.create_future()
+                    prev = mw.on_event
+
+                    def on_ev(man_, name):
+                        prev(man_, name)
+                        t_ = asyncio.current_task()
+                        if name == "RUNNING_SPA_DISCONNECTED" and t_ is not None and t_.get_name() == "SPA:Ping loop" and not fut.done():
+                            fut.set_result(True)
+
+                    mw.on_event = on_ev
+                    mw.suspend_events = {"RUNNING_SPA_DISCONNECTED"}
+                    await mw.wait_state("CONNECTED", 60)
+                    await asyncio.sleep(3.0)
+                    mw.set_phase(Phase("blackout", 0))
+                    await asyncio.sleep(300)
+                    mw.set_phase(Phase("healthy", 0))
+                    try:
+                        await asyncio.wait_for(fut, 200)
+                        await asyncio.sleep(t_crash)
+                        out["landed_in_reset_callback"] = True
+                    except asyncio.TimeoutError:
+                        out["harness_problem"] = "the automatic reset never announced RUNNING_SPA_DISCONNECTED"
+                    mw.on_event = prev
+                elif shape == "command-in-flight":
+                    # a command the client is awaiting (the spa has just gone silent) is still retrying
+                    # when the action lands; whatever becomes of it, the client hears nothing more from
+                    # the abandoned connection
+                    await mw.wait_state("CONNECTED", 60)
+                    await asyncio.sleep(2.0)
+                    mw.set_phase(Phase("blackout", 0))
+                    spa_old = man._spa
+                    cmd = asyncio.ensure_future(spa_old.async_press(1) if int(t_crash) % 2 else spa_old.async_set_watercare(2))
+                    out["command_task"] = cmd.get_name()
+                    await asyncio.sleep(1.0 + t_crash)
+                    out["command_in_flight"] = not cmd.done()
                 elif shape == "in-consumer-callback":
                     # the action lands while a consumer task of the connection is suspended inside the
                     # client's event handler (RF-error events, handler sleeping 0.3-3 s)
@@ -206,6 +245,15 @@ def scenario(sh: Shard, seed, idx, action, t_crash, shape, regime, suspend):
                     loc_open = [t for t in before_tr if t.kw.get("allow_broadcast") and not t.closed]
                     if loc_open:
                         out["problems"].append(("C10:reset:discovery-endpoint-open", f"{len(loc_open)} discovery endpoint(s) opened before the reset still open {C.GeckoConfig.DISCOVERY_TIMEOUT_IN_SECONDS + 1}s later"))
+                    if shape == "command-in-flight":
+                        t_reset = mw.w.now
+                        mw.set_phase(Phase("healthy", 0))
+                        await asyncio.sleep(90)
+                        late_ev = [(round(e["t"] - t_reset, 1), e["event"]) for e in mw.events if e["task"] == out.get("command_task") and e["t"] > t_reset]
+                        if late_ev:
+                            out["problems"].append(("C10:late-effect:abandoned-command", f"a command that was in flight when the connection was reset delivered events to the client afterwards: {late_ev[:3]}"))
+                        if out.get("command_in_flight"):
+                            out["counted_command_in_flight"] = True
                     await asyncio.sleep(20)
                     n_open = len([t for t in loop.transports if not t.closed])
                     out["open_after_settle"] = n_open
@@ -284,6 +332,10 @@ def scenario(sh: Shard, seed, idx, action, t_crash, shape, regime, suspend):
             sh.count("resets_checked_for_endpoints")
             if x.get("task") and not str(x["task"]).startswith("Task-"):
                 sh.count("automatic_resets_checked_for_endpoints")
+            slow = [e_["name"] for e_ in x.get("conn_tasks_before", []) if e_["done_at"] is None or e_["done_at"] > x["t1"] + 1.0]
+            if slow and x.get("exc") is None:
+                m2 = ":pump-interleaved-reset" if pump_inside(x) else ""
+                sh.violation("C10:reset:tasks-alive" + m2, f"tasks of the connection that async_reset (task {x.get('task')}) let go of were still running 1 s after it returned: {sorted(set(slow))}", dict(wit, reset_task=x.get("task")))
             left = [tr for tr in x.get("conn_endpoints_before", []) if tr.closed_at is None or tr.closed_at > x["t1"] + 0.5]
             if left:
                 m2 = ":pump-interleaved-reset" if pump_inside(x) else ""
@@ -297,6 +349,10 @@ def scenario(sh: Shard, seed, idx, action, t_crash, shape, regime, suspend):
         sh.count("socket_errors_injected", out.get("errors_injected", 0))
         if shape == "at-endpoint-creation":
             sh.count("actions_at_endpoint_creation")
+        if out.get("landed_in_reset_callback"):
+            sh.count("actions_while_the_automatic_reset_was_inside_a_client_callback")
+        if out.get("counted_command_in_flight"):
+            sh.count("resets_with_a_command_in_flight")
         if out.get("landed_at_step"):
             sh.count("actions_at_a_scheduler_step")
         if out.get("consumer_suspended_at_action"):
@@ -428,6 +484,13 @@ def main(tier, seed):
             for t in (0.0, 0.05, 0.2):
                 cases.append({"idx": idx, "action": action, "t": t, "shape": "in-consumer-callback", "regime": regime, "suspend": "seconds"})
                 idx += 1
+            for t in (0.0, 0.05, 0.2):
+                cases.append({"idx": idx, "action": action, "t": t, "shape": "in-reset-callback", "regime": regime, "suspend": "seconds"})
+                idx += 1
+            if action == "reset":
+                for t in (0.0, 1.0, 2.0, 3.0):
+                    cases.append({"idx": idx, "action": action, "t": t, "shape": "command-in-flight", "regime": regime, "suspend": "none"})
+                    idx += 1
             # every scheduler step from entering the context to the steady state (about 260 steps to
             # CONNECTED, then the first polls of the steady state)
             for k in range(0, 330, 3 if tier == "quick" else 1):
@@ -446,6 +509,8 @@ def main(tier, seed):
     run.need(run.counters.get("reconnect_cycles", 0) >= 10, "reconnect cycles not run")
     run.need(run.counters.get("socket_errors_injected", 0) >= 4, "socket errors before reset/exit not exercised")
     run.need(run.counters.get("actions_at_endpoint_creation", 0) >= 4, "no reset/exit landed exactly at an endpoint creation")
+    run.need(run.counters.get("actions_while_the_automatic_reset_was_inside_a_client_callback", 0) >= 4, "no reset/exit landed while the automatic reset was suspended inside a client callback")
+    run.need(run.counters.get("resets_with_a_command_in_flight", 0) >= 3, "no reset landed while a client command was in flight")
     run.need(run.counters.get("actions_at_a_scheduler_step", 0) >= 200, "too few actions landed at an exact scheduler step")
     run.need(run.counters.get("actions_while_a_consumer_was_inside_a_client_callback", 0) >= 4, "no reset/exit landed while a consumer task was suspended inside a client callback")
     run.extra["crash_points"] = len(cases)
